@@ -35,6 +35,8 @@ class FeedServer(threading.Thread):
         self.port = self.sock.getsockname()[1]
         self.stop_ev = threading.Event()
         self.done_sending = threading.Event()
+        self.queue = []                      # interactive connections: bytes pushed while the client runs
+        self.qlock = threading.Lock()
         self.log = []
         self.accepted = 0
 
@@ -62,6 +64,19 @@ class FeedServer(threading.Thread):
                 last = ci == len(self.script) - 1
                 if last:
                     self.done_sending.set()
+                if conn_script.get("interactive"):
+                    while not self.stop_ev.is_set():
+                        with self.qlock:
+                            data = self.queue.pop(0) if self.queue else None
+                        if data is None:
+                            time.sleep(0.01)
+                            continue
+                        try:
+                            c.sendall(data)
+                        except OSError:
+                            break
+                    c.close()
+                    break
                 if conn_script.get("then", "hold") == "close":
                     time.sleep(conn_script.get("linger", 0.3))
                     c.close()
@@ -75,6 +90,10 @@ class FeedServer(threading.Thread):
         finally:
             self.done_sending.set()
             self.sock.close()
+
+    def push(self, data):
+        with self.qlock:
+            self.queue.append(bytes(data))
 
     def stop(self):
         self.stop_ev.set()
